@@ -218,20 +218,13 @@ class Exc(object):
         return "Exc(%s%s)" % (self.clsname(), (" @" + self.origin) if self.origin else "")
 
 
-def vkey(v, ren=None):
-    """Hashable canonical key of a value (Refs renamed through ``ren``)."""
-    if isinstance(v, Ref):
-        return ("R", ren.get(v.oid, v.oid) if ren is not None else v.oid)
-    if isinstance(v, Top):
-        return v.key()
+def _vkey_slow(v, ren=None):
     if isinstance(v, (tuple, list)):
         return ("T" if isinstance(v, tuple) else "L",) + tuple(vkey(x, ren) for x in v)
     if isinstance(v, (set, frozenset)):
         return ("S",) + tuple(sorted((vkey(x, ren) for x in v), key=repr))
     if isinstance(v, dict):
         return ("D",) + tuple(sorted(((vkey(k, ren), vkey(x, ren)) for k, x in v.items()), key=repr))
-    if isinstance(v, EnumVal):
-        return ("E", v.cls, v.name)
     if isinstance(v, ClassVal):
         return ("C", v.name())
     if isinstance(v, FuncVal):
@@ -261,7 +254,27 @@ def vkey(v, ren=None):
     return ("?", repr(v))
 
 
+_ATOMS = (str, int, float, bool, bytes, type(None))
+
+
+def vkey(v, ren=None):
+    """Hashable canonical key of a value (Refs renamed through ``ren``)."""
+    t = type(v)
+    if t in _ATOMS:
+        return (t.__name__, v)
+    if t is Ref:
+        return ("R", ren.get(v.oid, v.oid) if ren is not None else v.oid)
+    if t is EnumVal:
+        return ("E", v.cls, v.name)
+    if t is Top:
+        return v.key()
+    return _vkey_slow(v, ren)
+
+
 def refs_in(v, out):
+    t = type(v)
+    if t in _ATOMS or t is EnumVal:
+        return
     if isinstance(v, Ref):
         out.append(v.oid)
     elif isinstance(v, (tuple, list, set, frozenset)):
